@@ -147,6 +147,12 @@ def check_c01(ctx):
     # (T) operator level: free-running operator, every created object must end up in a successful execution, in order
     import op
     nlog = op.oplog(ctx, "C01")
+    # (S) operator level: behaviours of spec/Operator with failing and retried Synchronizations of grouped bindings: every
+    # monitor of a combined Synchronization is unlocked by the successful retry, and no Event task exists before that
+    ne2e, e2e_stats = op.e2e(ctx, ("C01/",), ["C", "G", "K"], ctx.pick(25, 250), depth=50)
+    ctx.log("operator level: %d behaviours replayed on the real operator (Synchronization -> unlock -> Events): %s" % (ne2e, e2e_stats))
+    ctx.cov["operator_level_replay"] = e2e_stats
+    nlog += ne2e
     ctx.cov["delivery_runs"] = runs
     ctx.cov["delivery_events"] = len(events)
     ctx.log("manager level: %d free-running runs (%d trace records) validated by TLC against KubeDelivery: %s" % (runs, len(events), t["violated"] or "accepted"))
